@@ -40,9 +40,9 @@ def census(features, ran_object=lambda s: s):
     def scen(s):
         counts["scenario"][s.status.name] += 1
         if s.status.name == "failed":
-            failed.append(s.name)
+            failed.append((u"%s" % s.location, s.name))
         elif s.status.name in ERROR_CLASS:
-            errored.append(s.name)
+            errored.append((u"%s" % s.location, s.name))
         for stp in s.all_steps:
             counts["step"][stp.status.name] += 1
 
@@ -124,7 +124,7 @@ def parse_line(fmt, line):
 
 
 def parse_listing(text):
-    """'Failing scenarios:' / 'Errored scenarios:' sections -> (failing names, errored names)"""
+    """'Failing scenarios:' / 'Errored scenarios:' sections -> (failing, errored) as lists of (location, name)"""
     failing, errored = [], []
     cur = None
     for line in text.splitlines():
@@ -136,7 +136,7 @@ def parse_listing(text):
             # "  <location>  <name>"
             body = line[2:]
             idx = body.find("  ")
-            cur.append(body[idx + 2:] if idx >= 0 else body)
+            cur.append((body[:idx], body[idx + 2:]) if idx >= 0 else (body, u""))
         else:
             cur = None
     return failing, errored
@@ -325,8 +325,8 @@ def check(case):
         if sorted(le) != sorted(errored):
             res.fail("C14.listing.errored", "%s/%s lists errored %s, model has %s" % (impl, fmt, le, errored))
     # collector's own lists
-    cf = sorted(s.name for s in rep_v2.failed_scenarios)
-    ce = sorted(s.name for s in rep_v2.errored_scenarios)
+    cf = sorted((u"%s" % s.location, s.name) for s in rep_v2.failed_scenarios)
+    ce = sorted((u"%s" % s.location, s.name) for s in rep_v2.errored_scenarios)
     if cf != sorted(failed):
         res.fail("C14.collector.failed-list", "collector lists failed %s, model has %s" % (cf, sorted(failed)))
     if ce != sorted(errored):
@@ -344,6 +344,10 @@ def check(case):
         res.label("has-rule")
     if prog.get("hook_faults"):
         res.label("hook-fault")
+    if prog.get("fname_fmt") and (failed or errored):
+        res.label("listing:long-locations")
+    if len(prog["features"]) >= 2 and len(set(f["name"] for f in prog["features"])) == 1:
+        res.label("same-titled-features")
     if case.get("interrupt"):
         res.label("interrupted-in-hook")
     if (prog.get("cfg") or {}).get("dry_run"):
@@ -375,16 +379,33 @@ def disk_case(draw):
     return case
 
 
+LONG_DIR = u"features/regression/customer_portal/account_settings/notification_preferences_%d.feature"
+
+
+@st.composite
+def run_case(draw):
+    prog = draw(gen.program_st())
+    v = draw(st.integers(0, 11))
+    if v <= 1:
+        # the feature files live deep down: 'file:line' is longer than a line of a terminal
+        prog["fname_fmt"] = LONG_DIR
+    elif v == 2 and len(prog["features"]) >= 2:
+        # several feature files with the same title (features/web/login.feature, features/api/login.feature)
+        for f in prog["features"]:
+            f["name"] = u"Login"
+    return {"program": prog}
+
+
 def explore(rec):
     quick = rec.tier == "quick"
     rec.hyp("disk-route", disk_case(), 1500 if quick else 30000)
-    rec.hyp("runs", gen.program_st().map(lambda p: {"program": p}), 6000 if quick else 150000)
+    rec.hyp("runs", run_case(), 6000 if quick else 150000)
     rec.hyp("interrupted-in-hook", interrupted_case(), 1500 if quick else 30000)
 
 
 def required_labels(tier):
     return ["status:" + s for s in ["passed", "failed", "error", "hook_error", "skipped", "untested", "undefined",
-                                    "pending", "pending_warn"]] + ["cut-short", "has-rule", "hook-fault", "dry-run", "interrupted-in-hook", "disk", "disk:feature-less-files", "disk:interrupted-in-step-hook"]
+                                    "pending", "pending_warn"]] + ["cut-short", "has-rule", "hook-fault", "dry-run", "interrupted-in-hook", "disk", "disk:feature-less-files", "disk:interrupted-in-step-hook", "listing:long-locations", "same-titled-features"]
 
 
 KNOWN_PREDICATES = {}
